@@ -216,3 +216,58 @@ func checkParserPanics(c *core.Ctx, rule string) {
 	c.Floor(rule, 3, "type assertions and constant indices on sqlparser nodes in parser/parser.go")
 	_ = n
 }
+
+// checkTupleTranslation (TUPLE1): the grammar builds a one-element ValTuple only for the right operand of IN / NOT IN
+// (a parenthesized single expression is a ParenExpr), so the translation of a ValTuple must yield a tuple of all its
+// elements for every length: unwrapping a one-element tuple turns `x IN (e)` into in(x, e), which compares x with the
+// members of e, or does not typecheck.
+func checkTupleTranslation(c *core.Ctx, rule string) {
+	p := c.Prog
+	fn := p.Func("parser", "ParseExpression")
+	key := "parser.ParseExpression/ValTuple"
+	if fn == nil {
+		c.Unknown(rule, key, 0, "anchor not found")
+		return
+	}
+	c.SawFunc("parser.ParseExpression")
+	var clause *ast.CaseClause
+	ast.Inspect(fn.Decl.Body, func(n ast.Node) bool {
+		cc, ok := n.(*ast.CaseClause)
+		if !ok {
+			return true
+		}
+		for _, e := range cc.List {
+			if core.ExprStr(e) == "sqlparser.ValTuple" {
+				clause = cc
+			}
+		}
+		return true
+	})
+	if clause == nil {
+		c.Unknown(rule, key, fn.Decl.Pos(), "the ValTuple case was not found")
+		return
+	}
+	bad, n := "", 0
+	for _, s := range clause.Body {
+		ast.Inspect(s, func(nd ast.Node) bool {
+			if _, ok := nd.(*ast.FuncLit); ok {
+				return false
+			}
+			ret, ok := nd.(*ast.ReturnStmt)
+			if !ok {
+				return true
+			}
+			if len(ret.Results) == 2 && core.IsNilIdent(fn.Info(), ret.Results[1]) {
+				n++
+				if call, ok := ret.Results[0].(*ast.CallExpr); !ok || p.CalleeName(fn.Info(), call) != "logical.NewTuple" {
+					bad = fmt.Sprintf("%s: a ValTuple is translated to %s instead of a tuple of its elements", p.Pos(ret.Pos()), core.ExprStr(ret.Results[0]))
+				}
+			} else if len(ret.Results) == 1 {
+				// a forwarded (expression, error) pair: the tuple is replaced by whatever the call yields
+				bad = fmt.Sprintf("%s: a ValTuple is translated to %s instead of a tuple of its elements (a one-element list `x IN (e)` must stay a list)", p.Pos(ret.Pos()), core.ExprStr(ret.Results[0]))
+			}
+			return true
+		})
+	}
+	c.Decide(bad == "" && n >= 1, rule, key, clause.Pos(), n, "every successful path yields a tuple of all elements", bad)
+}
